@@ -26,6 +26,14 @@ def step (t : List String) : String :=
     match n.toNat? with
     | some k => "ok " ++ toHex (charsToBytes (printAmount k))
     | none => "bad-op"
+  | ["json", n] =>
+    match n.toNat? with
+    | some k =>
+      let txt := printAmount k
+      match parseDecimal txt with
+      | some v => "ok " ++ toHex (charsToBytes (['"'] ++ txt ++ ['"'])) ++ s!" {v}"
+      | none => "panic"
+    | none => "bad-op"
   | ["ofuint", n] =>
     match n.toNat? with
     | some k => s!"ok {ofUint k}"
